@@ -177,6 +177,7 @@ def main(tier, seed):
         e.check_reachable()
         e.obligation("updated-mean-within-bounds", lambda i, o, lbv=lbv, ubv=ubv: [S.le(S.SA(lbv), S.SA(o[0])), S.le(S.SA(o[0]), S.SA(ubv))])
 
+    _provenance(rep, tier, seed)
     if tier == "thorough":
         bad = sess.cross_check()
         rep.extra["cvc5_disagreements"] = bad
@@ -185,6 +186,51 @@ def main(tier, seed):
     rep.add_queries(sess)
     rep.samples = [o["name"] for o in rep.obligations if o["kind"] == "obligation"][:12]
     return rep.finish()
+
+
+def _provenance(rep, tier, seed):
+    """F-LOOP: the action handed to env.step is the sampler's (or action_space.sample()'s / the planner's)
+    return value, unmodified, and the samplers are built from the environment's own action space."""
+    from props import loops as L
+    from props import loopworld as W
+    from props.e2common import E2Report
+    e2 = E2Report(PROP, tier, seed)
+    e2.r = rep
+
+    def prog(kind, which, K):
+        def run(ctx):
+            if kind == "cont":
+                tr = L.run_continuous(ctx, which, K, 0, symbolic=("learning_starts",))
+            elif kind == "td7":
+                tr = L.run_td7(ctx, K, 0, symbolic=("learning_starts",))
+            elif kind == "mrq":
+                tr = L.run_mrq(ctx, K, 0, symbolic=("learning_starts",))
+            else:
+                tr = L.run_pets(ctx, which, K, 0)
+            ls = tr.cfg["learning_starts"]
+            ev_name = {"sac": "policy_sample", "pets": "planner"}.get(which, "sample_actions")
+            acts = {at: p for (_, at, p) in tr.w.of(ev_name) if not p.get("warmup")}
+            rnd = {at: p for (_, at, p) in tr.w.of("space_sample")}
+            for k, st in enumerate(tr.env.steps):
+                warm = k < ls
+                a = W.tagval(st["action"])
+                if k in rnd and k not in acts:
+                    ctx.check(a == W.tagval(rnd[k]["action"]), "action-sent-to-the-environment-is-the-action-space-sample-unmodified")
+                    ctx.check(warm, "uniform-actions-only-during-warm-up")
+                elif k in acts and k not in rnd:
+                    ctx.check(a == W.tagval(acts[k]["action"]), "action-sent-to-the-environment-is-the-sampler's-output-unmodified")
+                    ctx.check(~warm if not isinstance(warm, bool) else not warm, "policy-actions-only-after-warm-up")
+                else:
+                    ctx.check(False, "action-has-exactly-one-source")
+            for nm in ("make_sample_actions", "make_sample_target_actions"):
+                for (_, at, p) in tr.w.of(nm):
+                    ctx.check(p["space"] is tr.env.action_space, "samplers-are-built-from-the-environment's-action-space")
+        return run
+    table = [("cont", w) for w in ("ddpg", "td3", "td3_lap", "sac")] + [("td7", "td7"), ("mrq", "mrq"), ("pets", "pets")]
+    for kind, which in table:
+        for K in ([2] if tier == "quick" else [2, 3, 4]):
+            e2.run(f"provenance:train_{which}[K={K}]", prog(kind, which, K), fn=f"rl_blox.algorithm.{which}", site_of=lambda label, which=which: f"train_{which}:{label}")
+    rep.bounds["loop_provenance"] = "DDPG, TD3, TD3+LAP, SAC, TD7, MR.Q, PETS; K<=4 steps; flags and learning_starts symbolic"
 
 
 def replay(path):
